@@ -33,7 +33,7 @@ for p in props:
             "evidence_file": "evidence/%s.json" % pid,
             "replay_cmd_template": "bin/check %s --replay {path}" % pid,
             "engine": "lean4+vsched",
-            "level_claimed": {"category": "proof", "text": t.get("text", ""), "design_ref": "DESIGN.md §8 " + pid},
+            "level_claimed": {"category": t.get("category", "proof"), "text": t.get("text", ""), "design_ref": "DESIGN.md §8 " + pid},
             "level_note": t.get("note", ""),
             "technique": t.get("technique", "Lean 4 theorems about an executable model; model tied to the code by regenerated facts and trace replay"),
         })
